@@ -360,6 +360,8 @@ pub struct StepLimit {
 pub struct SrcCore {
     pub data: Vec<u8>,
     pub pos: usize,
+    /// Where the one-off premature `Ok(0)` (`early_eof` with `resume`) was answered.
+    pub resumed_at: Option<usize>,
     chunks: Vec<u16>,
     chunk_i: usize,
     eintr_at: Vec<u32>,
@@ -392,6 +394,7 @@ impl SimSource {
         let core = Rc::new(RefCell::new(SrcCore {
             data,
             pos: 0,
+            resumed_at: None,
             chunks: cfg.chunks.clone(),
             chunk_i: 0,
             eintr_at: cfg.eintr_at.clone(),
@@ -485,6 +488,7 @@ impl Read for SimSource {
                     return Ok(0);
                 } else if !c.eof_fired {
                     c.eof_fired = true;
+                    c.resumed_at = Some(c.pos);
                     log.ledger.bump(K::early_eof_resumed);
                     log.event('R', call, buf.len(), "early_eof_once", 0);
                     return Ok(0);
